@@ -27,13 +27,13 @@ import (
 
 func TestMain(m *testing.M) {
 	harness.Property("C03",
-		"the remote is a fixed byte script fed through a generated read schedule. Scripts: (1) conforming transcripts = the recorded peer->library stream of a clean exchange with the reference peer (sanity: must end nil/ErrConnLost); (2) layered mutations of such transcripts as structured elements — element drop/dup/swap, hostile lines (F>, ;PQ, FS, FC, FC EM, NUL lines, non-ASCII), numeric fields of proposals/answers/offsets set to -1, 0, 2^31-1, 2^31, 2^63, 10^18, frame header length/title/offset/block sizes/checksum edits, payload edits (LZHUF size negative / too small / huge with re-computed CRC, bit flips, truncation, random) with the frame and proposal re-computed around them, message edits (negative/huge/non-numeric Body: and File: sizes, dropped headers) re-compressed and re-framed, then byte level truncate/delete/insert/substitute; every 25th case additionally gets a flood of 150..600 KB of comment / empty / short lines at a line boundary; (3) arbitrary bytes. Master and slave role, 0..7 outbound messages, with and without handler. Non-trivial = the Session consumed bytes beyond the remote's handshake; distinct by hash(script, library config).",
-		"a hang is declared only after 60 s wall for a case that normally takes microseconds; allocation bound per case: 64 MiB + 4096 x script bytes of cumulative allocation (runtime.MemStats.TotalAlloc), worker address space limited to 4 GiB, goroutine stacks limited to 48 MiB (debug.SetMaxStack)",
+		"the remote is a fixed byte script fed through a generated read schedule. Scripts: (1) conforming transcripts = the recorded peer->library stream of a clean exchange with the reference peer (sanity: must end nil/ErrConnLost); (2) layered mutations of such transcripts as structured elements — element drop/dup/swap, hostile lines (F>, ;PQ, FS, FC, FC EM, NUL lines, non-ASCII), numeric fields of proposals/answers/offsets set to -1, 0, 2^31-1, 2^31, 2^63, 10^18, 2^64-1, 2^64, 2^65-1, 19 nines (values that wrap to a negative 64 bit integer), frame header length/title/offset/block sizes/checksum edits, payload edits (LZHUF size negative / too small / huge with re-computed CRC, bit flips, truncation, random) with the frame and proposal re-computed around them, message edits (negative/huge/non-numeric Body: and File: sizes, dropped headers) re-compressed and re-framed, then byte level truncate/delete/insert/substitute; every 25th case additionally gets a flood of 150..600 KB of comment / empty / short lines at a line boundary; (3) arbitrary bytes. Master and slave role, 0..7 outbound messages, with and without handler. Non-trivial = the Session consumed bytes beyond the remote's handshake; distinct by hash(script, library config).",
+		"a hang is declared only after 60 s wall for a case that normally takes microseconds; allocation bound per case: 64 MiB + 4096 x script bytes of cumulative allocation (runtime.MemStats.TotalAlloc), worker address space limited to 4 GiB, goroutine stacks limited to 16 MiB (debug.SetMaxStack; the largest scripts are 600 KB floods, so a stack beyond that is more than 25 times the bytes received)",
 	)
 	// the proportionality clause covers the stack too: a correct session needs a few KiB of stack whatever the
-	// remote sends; a goroutine that grows beyond 48 MiB ends the process (fatal "stack overflow"), which the
+	// remote sends; a goroutine that grows beyond 16 MiB ends the process (fatal "stack overflow"), which the
 	// driver attributes to the case and reports after re-running it alone
-	debug.SetMaxStack(48 << 20)
+	debug.SetMaxStack(16 << 20)
 	harness.Main(m)
 }
 
@@ -121,9 +121,9 @@ func run(c Case) (sig, msg string, o obs) {
 }
 
 var hostileLines = []string{"F>", "F> ", "F>  ", "F", "FS", "FS ", "FC", "FC EM", "FC EM X", "FC EM X 1", "FC EM X 1 1", "FD EM X -1 -1 0", "FA", "FB 1", "FE", ";PQ", ";PQ:", ";PQ: ", ";PM", ";PM: a b c",
-	";FW", ";FW:", ";FW: ", ";FW:  |", "[", "[]", "[-]", "[--]", "[a-b]", "[a-B2$]", "\x00", "\x00\x00", " \x00 ", "\x00F>", "FF\x00", "***", "*** err", "*", ">", " >", "FQ", "FF", "\xff\xfe", "FS A", "FS !", "FS A99999999999999999999", "FS +A", "FS +++++++++++", "FS A500", "FS !999999", "FS A1000000", "FS -=+A5", "FS E", "FS H"}
+	";FW", ";FW:", ";FW: ", ";FW:  |", "[", "[]", "[-]", "[--]", "[a-b]", "[a-B2$]", "\x00", "\x00\x00", " \x00 ", "\x00F>", "FF\x00", "***", "*** err", "*", ">", " >", "FQ", "FF", "\xff\xfe", "FS A", "FS !", "FS A99999999999999999999", "FS A18446744073709551615", "FS !9999999999999999999", "FS A36893488147419103231", "FS +A", "FS +++++++++++", "FS A500", "FS !999999", "FS A1000000", "FS -=+A5", "FS E", "FS H"}
 
-var hostileNums = []string{"-1", "0", "1", "2147483647", "2147483648", "4294967295", "4294967296", "9223372036854775807", "9223372036854775808", "1000000000000000000", "+5", " 5", "5 ", "", "x", "0x10", "1e9", "-0"}
+var hostileNums = []string{"-1", "0", "1", "2147483647", "2147483648", "4294967295", "4294967296", "9223372036854775807", "9223372036854775808", "1000000000000000000", "18446744073709551615", "18446744073709551616", "9999999999999999999", "36893488147419103231", "18446744073709551516", "340282366920938463463374607431768211455", "+5", " 5", "5 ", "", "x", "0x10", "1e9", "-0"}
 
 func mutatePayload(t *rapid.T, p []byte, code byte) ([]byte, string) {
 	p = append([]byte(nil), p...)
